@@ -45,7 +45,7 @@ type config struct {
 var configs = map[string]config{
 	"C01": {pkg: "./checks/c01", shardsQ: 4, shardsT: 16, level: "exploration"},
 	"C02": {pkg: "./checks/c02", shardsQ: 8, shardsT: 16, level: "exploration", fuzz: []fuzzTarget{{"FuzzReply", 120}}},
-	"C03": {pkg: "./checks/c03", shardsQ: 4, shardsT: 16, level: "fault_enumeration"},
+	"C03": {pkg: "./checks/c03", shardsQ: 4, shardsT: 16, level: "fault_enumeration", fuzz: []fuzzTarget{{"FuzzDatagrams", 90}}},
 	"C04": {pkg: "./checks/c04", shardsQ: 4, shardsT: 16, level: "exploration", fuzz: []fuzzTarget{{"FuzzUnmarshalAll", 90}, {"FuzzAPIReply", 90}, {"FuzzListenHandler", 60}}},
 	"C05": {pkg: "./checks/c05", shardsQ: 4, shardsT: 16, level: "exploration", fuzz: []fuzzTarget{{"FuzzRoundTrip", 120}}},
 	"C06": {pkg: "./checks/c06", shardsQ: 8, shardsT: 16, level: "exploration"},
